@@ -11,6 +11,8 @@ import (
 
 	"github.com/pokt-network/pocket-core/codec"
 	sdk "github.com/pokt-network/pocket-core/types"
+	appsTypes "github.com/pokt-network/pocket-core/x/apps/types"
+	nodesTypes "github.com/pokt-network/pocket-core/x/nodes/types"
 )
 
 type generator struct {
@@ -270,7 +272,7 @@ func (g *generator) genClaims() *Step {
 	case x < g.prof.forge:
 		st.Action = "dup-evidence"
 	case x < g.prof.forge+0.1 && g.s.prop == "C32":
-		st.Action = "outsider-claim"
+		st.Action = []string{"outsider-claim", "mistype", "mistype", "shift-height"}[r.Intn(4)]
 	case x < g.prof.forge+0.1:
 		st.Action = "claims-only"
 	case x < g.prof.forge+0.2:
@@ -443,6 +445,10 @@ func (g *generator) genTx() *Step {
 		if r.Chance(0.08) {
 			st.To = multiBase + r.Intn(nMulti)
 		}
+		if r.Chance(0.05) {
+			// to the address of a module account
+			st.ToMod = []string{nodesTypes.StakedPoolName, appsTypes.StakedPoolName, "dao"}[r.Intn(3)]
+		}
 		if r.Chance(0.1) {
 			// from a multi-signature account: every member signs
 			st.From = multiBase + r.Intn(nMulti)
@@ -498,6 +504,14 @@ func (g *generator) genTx() *Step {
 		}
 		if r.Chance(pDel) {
 			keys := g.allKeys()
+			if r.Chance(0.35) {
+				// delegators that have no account yet: their first reward creates the account, and the
+				// order in which a block creates accounts is part of what its app hash depends on
+				keys = nil
+				for i := 0; i < 40; i++ {
+					keys = append(keys, freshBase+i)
+				}
+			}
 			perm := r.Perm(len(keys))
 			take := func(i int) int { return keys[perm[i%len(perm)]] }
 			switch r.Weighted([]int{40, 25, 15, 10, 10}) {
@@ -729,6 +743,10 @@ func (g *generator) genParam() (string, string) {
 		{"pos/MaxValidators", q(int64(r.Range(1, c.NNodes+2)))},
 		{"pos/StakeMinimum", q(c.StakeMinimum + int64(r.Range(-2, 6))*1_000_000)},
 		{"pos/BlocksPerSession", q(int64(r.Range(1, 6)))},
+		// never adding up to more than 100: the change message is not validated, the servicer's
+		// portion of a reward then turns negative, and the servicer's own node dies in its metrics
+		// goroutine ("counter cannot decrease in value") when it processes its proof; a panic in a
+		// goroutine ends the simulation process too (DESIGN.md: node-killing inputs)
 		{"pos/DAOAllocation", q(int64(r.Range(0, 50)))},
 		{"pos/ProposerPercentage", q(int64(r.Range(0, 50)))},
 		{"pos/MaxJailedBlocks", q(int64(r.Range(2, 40)))},
